@@ -3,14 +3,80 @@ import json, os, shutil, subprocess, concurrent.futures as cf
 from .. import core
 
 PROOF = "Props/C01.v"
-RUN_FILES = []
+RUN_FILES = ["Run/SemCoreRun.v"]
 CORR_NAME = "input and output binaries executed side by side by node's WebAssembly engine (an interpreter/compiler that does not link walrus)"
 ASSUMPTIONS = [
     "Model/Sem.v is an abstract big-step semantics of structured operator forests, parametric in the semantics of the individual operators; the equivalence theorem assumes that an operator's semantics is invariant under the consistent renumbering of indices (the interface to the WebAssembly semantics) and that return/unreachable never fall through",
     "the normal form the theorem is about is tied to the code by C03 (emitted body = normal form of the parsed body) and to the bytes by flat_nf_rt",
+    "Model/SemCore.v is a hand-written concrete semantics of 34 integer-core operators with exact label records; it is tied to V8 by this run (results, traps, globals on generated functions) and instantiates the abstract theorem (c01_integer_core_instance)",
     "execution is observed with V8 (node 20) on generated modules of the subset it can instantiate (one plain 32-bit memory; relaxed SIMD behind a flag; no multi-memory/memory64/shared memory); generated loops never branch back and tail calls are acyclic so that every call terminates; a real loop, br_table, call_indirect and state-carrying calls are covered by hand-written modules",
 ]
 WHICH = ("out", "gc")
+
+
+def core_correspondence(ctx, thorough, search):
+    """integer core: generated functions run by node (input and walrus's output, fresh instance per call) and by the Coq interpreter of
+    Model/SemCore.v on the same body, arguments and globals; returns (disagreements, oracle_violations, coverage)"""
+    out = os.path.join(ctx.work, ("search" if search else "corr") + "_core")
+    shutil.rmtree(out, ignore_errors=True)
+    n = 1500 if thorough else 150
+    rc, o, dt = core.sh([core.vh(), "c01core", out, str(ctx.seed + (77 if search else 0)), str(n)], timeout=1200)
+    if rc != 0:
+        return [{"error": "core generator failed", "out": o[-600:]}], [], {}
+    idx = json.load(open(os.path.join(out, "index.json")))
+    r = subprocess.run(["node", os.path.join(core.VERIF, "js", "runcore.mjs"), out], capture_output=True, text=True, timeout=600)
+    if r.returncode != 0 or not r.stdout.strip():
+        return [{"error": "node failed on the integer-core cases", "out": r.stderr[-600:]}], [], {}
+    by = {}
+    for x in json.loads(r.stdout)["results"]:
+        by.setdefault(x["id"], []).append(x)
+
+    def res(v):
+        if v["r"].startswith("ok:"):
+            body = v["r"][3:]
+            return "CROk [%s]" % "; ".join(t[1:] for t in body.split(",")) if body else "CROk []"
+        return "CRTrap" if v["r"].startswith("trap:") else None
+    lines, ov, ncalls, ntraps = [], [], 0, 0
+    for c in idx["cases"]:
+        calls = []
+        for x in sorted(by.get(c["id"], []), key=lambda q: q["k"]):
+            if x["in"] != x["out"]:
+                ov.append({"class": "behaviour-differs", "what": "integer-core function %s, call %d: input `%s` / output `%s`" % (c["id"], x["k"], json.dumps(x["in"]), json.dumps(x["out"])),
+                           "input": {"module_hex": open(os.path.join(out, c["id"] + ".in.wasm"), "rb").read().hex(), "args": c["calls"][x["k"]]},
+                           "replay_cmd": "instantiate the input and walrus's round-trip output, call export f with args, compare result and globals g0 / g1"})
+            e = res(x["in"])
+            if e is None:
+                continue
+            ncalls += 1
+            ntraps += e == "CRTrap"
+            calls.append("([%s]%%Z, %s, %s, %s)" % ("; ".join("(%s)" % a["v"] for a in c["calls"][x["k"]]), e, x["in"]["g0"][1:], x["in"]["g1"][1:]))
+        lines.append("{| cc_tys := %s; cc_params := [%s]; cc_locals := [%s]; cc_results := [%s]; cc_g0 := (%s)%%Z; cc_g1 := (%s)%%Z; cc_body := %s; cc_calls := [%s] |}" % (
+            c["tys"], "; ".join(c["params"]), "; ".join(c["locals"]), "; ".join(c["results"]), c["g0"], c["g1"], c["body"], "; ".join(calls)))
+    head = "From Coq Require Import List NArith ZArith String. Import ListNotations.\nFrom WV Require Import Gen.Ops Model.Common Model.IR Model.ParseSpec Run.SemCoreRun.\nOpen Scope N_scope.\nDefinition cases : list corecase := [\n"
+    per = 40
+    for k in range(0, len(lines), per):
+        body = ";\n".join("  " + l for l in lines[k:k + per])
+        with open(os.path.join(out, "cases_core_%d.v" % (k // per)), "w") as f:
+            f.write(head + body + "\n].\nEval vm_compute in (List.map check_core cases).\n")
+        if k == 0:   # how many of these cases would a machine without label records get wrong? (discriminating power of the run)
+            with open(os.path.join(out, "lax_core_0.v"), "w") as f:
+                f.write(head + body + "\n].\nEval vm_compute in (List.map check_core_lax cases).\n")
+    results, errors = core.coq_eval(out, "cases_core_*.v")
+    dis = [{"file": f, "coq_error": m[-400:]} for f, m in errors.items()]
+    names = {41: "result differs from V8", 42: "final globals differ from V8", 43: "interpreter stuck", 44: "result stack ill-typed or too short", 45: "out of fuel"}
+    neval = 0
+    for f, codes in results.items():
+        neval += len(codes)
+        for i, cd in enumerate(codes):
+            if cd != 0:
+                dis.append({"code": cd, "meaning": names.get(cd, "?"), "file": os.path.basename(f), "case_index": i})
+    lax, _ = core.coq_eval(out, "lax_core_*.v")
+    lax_diff = sum(1 for codes in lax.values() for cd in codes if cd != 0)
+    cov = {"functions": len(lines), "calls_compared_with_v8": ncalls, "trapping_calls": ntraps, "evaluated_in_coq": neval,
+           "of_the_first_%d_functions_a_machine_without_label_records_gets_wrong" % min(per, len(lines)): lax_diff,
+           "generator": {k: idx.get(k) for k in ("operators", "loops", "branches", "dead_ops", "walrus_failures")},
+           "rule": "generated functions over the 34 operators Model/SemCore.v interprets (i32 / i64 arithmetic with wrap-around, comparisons, shifts, div / rem with traps, wrap / extend, locals, globals, drop, select) inside block / loop / if / br / br_if / br_table / return / unreachable, with nops, dead code, counter-bounded REAL loops, multi-value block types and branches taken with surplus values above the label height; 3 argument vectors per function, a fresh instance per call; V8's result bit patterns, trap verdict and final globals vs. the Coq interpreter (run_core, exact labels); input vs walrus's output compared as well"}
+    return dis, ov, cov
 
 
 def _run(a):
@@ -54,4 +120,11 @@ def correspondence(ctx, thorough, search, prop="C01"):
            "input_distribution": {"modules": len(idx["ids"]), "executions": len(res), "verdicts": tally, "calls": sum(r.get("calls", 0) for r in res), "trapping_calls": sum(r.get("traps", 0) for r in res),
                                   "host_calls": sum(r.get("host_calls", 0) for r in res), "runs_cut_at_stack_exhaustion": sum(1 for r in res if r.get("cut_at_exhaustion", -1) >= 0), "signatures_not_expressible_in_js": idx.get("signatures_not_expressible_in_js")},
            "exhaustive": False}
-    return {"disagreements": [], "oracle_violations": ov, "coverage": cov}
+    dis = []
+    if prop == "C01":
+        dis, ov2, cov2 = core_correspondence(ctx, thorough, search)
+        ov += ov2
+        cov["integer_core_vs_coq_interpreter"] = cov2
+        cov["evaluations"] += cov2.get("calls_compared_with_v8", 0)
+        cov["traces_validated_against_impl"] += cov2.get("evaluated_in_coq", 0)
+    return {"disagreements": dis, "oracle_violations": ov, "coverage": cov}
